@@ -36,6 +36,9 @@ func GenCase(t *rapid.T, mode string) Case {
 		if vkit.Uni(t, 4, "sameMember") == 0 {
 			m = mem()
 		}
+		if mode == "enum" && k >= 82 {
+			k = k % 20 // sequential histories only: faults and crash points are enumerated by the runner
+		}
 		switch {
 		case k < 20:
 			c.Ops = append(c.Ops, Op{K: "gen", M: m, Count: vkit.PickU(t, counts, "count")})
